@@ -372,8 +372,55 @@ fn deep_check(ctx: &Context, sys: &patronus::system::TransitionSystem) -> Result
     Ok(())
 }
 
+/// Known finding (see known_findings.json): `redxor` is expanded into one slice and one xor node
+/// per bit of its operand, so an operand whose declared width is in the millions or billions (a
+/// corrupted `sort bitvec` line) makes the reader allocate gigabytes and run for many minutes
+/// before the process is killed. Such inputs are recognised syntactically and not executed.
+fn redxor_on_huge_width(s: &str) -> Option<u64> {
+    if !s.contains("redxor") {
+        return None;
+    }
+    let mut sort_width: std::collections::HashMap<&str, u64> = Default::default();
+    let mut node_sort: std::collections::HashMap<&str, &str> = Default::default();
+    for line in s.lines() {
+        let line = line.split(';').next().unwrap_or("");
+        let t: Vec<&str> = line.split_whitespace().collect();
+        if t.len() < 3 {
+            continue;
+        }
+        if t[1] == "sort" {
+            if t[2] == "bitvec" && t.len() >= 4 {
+                if let Ok(w) = t[3].parse::<u64>() {
+                    sort_width.insert(t[0], w);
+                }
+            }
+            continue;
+        }
+        if t[1] == "redxor" && t.len() >= 4 {
+            let operand = t[3].trim_start_matches('-');
+            if let Some(w) = node_sort.get(operand).and_then(|sid| sort_width.get(sid)) {
+                if *w >= (1 << 22) {
+                    return Some(*w);
+                }
+            }
+        }
+        node_sort.insert(t[0], t[2]);
+    }
+    None
+}
+
 fn judge_text(text: &[u8], acc: &mut Acc) -> Option<Violation> {
     let s = String::from_utf8_lossy(text).to_string();
+    if let Some(w) = redxor_on_huge_width(&s) {
+        let v = Violation {
+            property: "C18".into(),
+            oracle: "C18/reader".into(),
+            class: "ResourceExhaustion".into(),
+            site: "redxor-operand-width>=2^22".into(),
+            detail: format!("redxor on an operand of declared width {w}: the reader builds one slice and one xor node per bit (not executed)"),
+        };
+        return if filter_known(acc, &v) { None } else { Some(v) };
+    }
     let mut problem: Option<(String, String)> = None;
     let out = guarded(|| {
         let mut ctx = Context::default();
@@ -471,7 +518,7 @@ impl Property for C18 {
     fn runs(&self, tier: Tier) -> usize {
         match tier {
             Tier::Quick => 600,
-            Tier::Thorough => 6_000,
+            Tier::Thorough => 1_000,
         }
     }
 
